@@ -175,14 +175,17 @@ __CPROVER_ensures((NOEXC & (HS.b == 12)) ==> (resp->statusCode == (int)(DG_V(HSB
 void phb_obsfold(iora_sv hs, Response *resp)
 PHB_PRE
 /* B6 */ __CPROVER_ensures((NOEXC & (GS < hs.n) & LINESTART(hs, GS) & (!CRLF_ATQ(hs, GS < hs.n ? GS : 0))) ==> !HM_OWS(RDQ(hs, GS < hs.n ? GS : 0)))
+/* B6b every non-empty line after the status line (arbitrary line start GS) was split at a colon and stored in the field map */
+__CPROVER_ensures((NOEXC & (GS < hs.n) & LINESTART(hs, GS) & (!CRLF_ATQ(hs, GS < hs.n ? GS : 0))) ==> (HB.seen != 0))
 ;
-/* proof phb_dupcl: RFC 9112 6.3 rule 5 - an accepted block has no CONFLICTING Content-Length lines, whatever the letter case of the field names:
- * the value of every Content-Length line (arbitrary line start GS) is byte-equal to the one value the field map ends up with (which is what
- * determineFraming will frame the body with). */
+/* proof phb_dupcl: RFC 9112 6.3 rule 5 - an accepted block has no CONFLICTING Content-Length lines, whatever the letter case of the field names.
+ * The header line that starts at the arbitrary GS (B6: every such line is stored): if the case-insensitive field map files it under
+ * Content-Length (recognised by the BYTES of its name, HM_NAME_IS_CL - not by the code's own comparison), its value is byte-equal
+ * (length + arbitrary offset GK) to the ONE value the map ends up with, which is the value determineFraming frames the body with. */
 void phb_dupcl(iora_sv hs, Response *resp)
 PHB_PRE
-/* B7 */ __CPROVER_ensures((NOEXC & (GS < hs.n) & LINESTART(hs, GS) & CLLINE(hs, GS)) ==> ((HB.seen != 0) & (resp->headers.has_cl != 0)))
-/* B8 */ __CPROVER_ensures((NOEXC & (GS < hs.n) & LINESTART(hs, GS) & CLLINE(hs, GS)) ==> ((HB.s_va <= hs.n) & (HB.s_vn <= hs.n) & (HB.s_va + HB.s_vn <= hs.n) & SVEQ_AT(hs, HB.s_va, HB.s_vn, HB.cl_off, resp->headers.cl.second.n)))
+/* B7 */ __CPROVER_ensures((NOEXC & (HB.seen != 0) & (HB.s_iscl != 0)) ==> (resp->headers.has_cl != 0))
+/* B8 */ __CPROVER_ensures((NOEXC & (HB.seen != 0) & (HB.s_iscl != 0)) ==> ((HB.s_va <= hs.n) & (HB.s_vn <= hs.n) & (HB.s_va + HB.s_vn <= hs.n) & SVEQ_AT(hs, HB.s_va, HB.s_vn, HB.cl_off, resp->headers.cl.second.n)))
 /* B9 the stored value is a range of the block */
 __CPROVER_ensures((NOEXC & (resp->headers.has_cl != 0)) ==> ((HB.cl_off <= hs.n) & (resp->headers.cl.second.n <= hs.n) & (HB.cl_off + resp->headers.cl.second.n <= hs.n) & ((resp->headers.cl.second.n == 0) | (resp->headers.cl.second.p == hs.p + HB.cl_off))))
 ;
